@@ -265,7 +265,9 @@ def run_batch(pid: str, tier: str, base_seed: int, workers: int | None = None,
     }
     budget = cfg.get("budget_s", 60)
     stopped_early = False
-    known_sigs = tuple(k["signature"] for k in load_known() if k.get("status") == "open" and k["property"] == pid)
+    # read once: workers and the final report must agree on what is listed, even if the file changes meanwhile
+    known = load_known()
+    known_sigs = tuple(k["signature"] for k in known if k.get("status") == "open" and k["property"] == pid)
     ctx = multiprocessing.get_context("fork")
     sys.stdout.flush()
     ex = ProcessPoolExecutor(max_workers=workers, mp_context=ctx)
@@ -330,11 +332,11 @@ def run_batch(pid: str, tier: str, base_seed: int, workers: int | None = None,
     finally:
         ex.shutdown(wait=False, cancel_futures=True)
     wall = time.monotonic() - t0
-    return finish(mod, pid, tier, base_seed, cfg, total, wall, n_enum, stopped_early, quiet)
+    return finish(mod, pid, tier, base_seed, cfg, total, wall, n_enum, stopped_early, quiet, known)
 
 
-def finish(mod, pid, tier, base_seed, cfg, total, wall, n_enum, stopped_early, quiet):
-    known = load_known()
+def finish(mod, pid, tier, base_seed, cfg, total, wall, n_enum, stopped_early, quiet, known=None):
+    known = load_known() if known is None else known
     os.makedirs(REPLAY_DIR, exist_ok=True)
     lines = []
     new_violations = 0
